@@ -563,8 +563,11 @@ pub fn encode_json_value_to_metadatum(
                 for (raw_key, value) in json_obj {
                     let key = if schema == MetadataJsonSchema::BasicConversions {
                         match raw_key.parse::<i128>() {
-                            Ok(x) => TransactionMetadatum::new_int(&Int(x)),
-                            Err(_) => encode_string(raw_key, schema)?,
+                            // only integers an Int can hold (as Int::from_str); any other key stays a string
+                            Ok(x) if x >= -(u64::MAX as i128) && x <= u64::MAX as i128 => {
+                                TransactionMetadatum::new_int(&Int(x))
+                            }
+                            _ => encode_string(raw_key, schema)?,
                         }
                     } else {
                         TransactionMetadatum::new_text(raw_key)?
